@@ -6,6 +6,10 @@ ids = [p['id'] for p in props]
 
 # id -> (level, technique, text, note)
 CLAIMED = {
+ "C12": ("exploration", "orphan scan + executable referential-action model (cascade closure, set null/default, end-of-statement restrict) compared with the engine's tables after every statement",
+         "Random parent/child histories over five schema kinds (chain, self-reference, composite key, two parents, UNIQUE-column reference) and all ON DELETE/UPDATE actions; after each statement the tables are read back and checked for orphans, against the model state, and for unchanged data after a rejection.",
+         "Row-at-a-time vs end-of-statement differences are marked ambiguous and decide nothing."),
+
  "C26": ("exploration", "privilege-set reference model + canary scan (values unique per table) + unchanged-state check, under random GRANT/REVOKE histories",
          "Statements of 18 shapes are issued by a non-admin role between random GRANT/REVOKE steps; success without the needed privilege, leaked canaries, data changes by failed statements and denials despite held privileges are violations.",
          "View access is accepted with SELECT on the view or its base table."),
